@@ -104,6 +104,15 @@ def check_chain(item):
 
     def witness(why, m=None):
         rows = sample_fields(prog, typing)
+        if m is not None:
+            try:
+                row = {}
+                for k, v in kwargs.items():
+                    val = harness.model_value(m, v)
+                    row[k] = keyrun.typed_value(val, "float" if typing.get(k) == "fp" else typing.get(k))
+                rows = [dict(row) for _ in range(4)] + rows      # the solver's input first, repeated
+            except Exception:
+                pass
         for r_ in rows:
             for k, v in env.items():
                 r_.setdefault(k, 1 if not isinstance(v, SStr) else "a")
@@ -152,16 +161,24 @@ def check_chain(item):
                     if d is False:
                         continue
                     cons = harness.abstract_digests(list(p.conds) + qc + ([] if d is True else [d]))
-                r, m = common.check(tally, cons, timeout_ms, label="C01 two worlds, same inputs, different outcome",
-                                    keep_sample=True)
+                r, m = common.check(tally, cons, min(timeout_ms, 20000), label="C01 two worlds, same inputs, different outcome",
+                                    keep_sample=True, _retry=False)
                 if r == "sat":
-                    found = True
+                    found = m
                     break
                 if r == "unknown":
+                    # too hard within the budget (bit-precise floats times a 53-bit random draw): fall back to any input
+                    # that reaches this path; the replay then decides whether the outcome really varies
+                    r2, m2 = common.check(tally, harness.abstract_digests(list(p.conds)), timeout_ms,
+                                          label="C01 path reading a process-local value is reachable")
+                    if r2 == "sat":
+                        found = m2
+                        break
                     out["status"] = "inconclusive"
                     out["note"] = "unknown on two-world query"
-            if found:
-                out["witnesses"].append(witness("the outcome depends on a process-local value (%s)" % wc[0].decl().name()))
+            if found is not False:
+                out["witnesses"].append(witness("the outcome depends on a process-local value (%s)" % wc[0].decl().name(),
+                                                found))
             continue
         if isinstance(p.outcome, Return) and out["reach"] == 0:
             r, m = common.check(tally, harness.abstract_digests(p.conds), timeout_ms, label="C01 reachability")
@@ -415,7 +432,8 @@ def main(tier):
         sorts = ["str", "int", "fp", "true", "none"]
         combos = list(itertools.product(sorts, repeat=len(prog.splitters)))
         rng.shuffle(combos)
-        for c in combos[:2]:
+        fixed = [tuple(["none"] * len(prog.splitters)), tuple(["str"] * len(prog.splitters))]
+        for c in fixed + [c for c in combos if c not in fixed][:2]:
             items.append(("chain", bname, prog, dict(zip(prog.splitters, c)), timeout_ms))
     results = common.pmap(_dispatch, items, chunksize=2)
     total = Tally()
